@@ -15,11 +15,14 @@ order of lists that the code itself leaves unsorted; the harness compares those 
 Go panics are explicit outcomes (`Except Fault`). The places where the code on the unchanged tree
 can panic are guarded by the switches of `Fixes`; the checked tree is modelled by `Fixes.all`.
 -/
+import Nsq.Model.Latency
+
 namespace Nsq.Model.Aggregate
 
 inductive Fault
   | indexOutOfRange (site : String)
   | nilDeref (site : String)
+  | nilMapWrite (site : String)
 deriving DecidableEq, Repr
 
 /-- Which guards the tree has. `all` = the tree with the proposed fixes. -/
@@ -28,10 +31,12 @@ structure Fixes where
   nilElems     : Bool   -- null producers / topics / channels / clients are skipped
   nilE2e       : Bool   -- TopicStats.Add / ChannelStats.Add tolerate a missing e2e latency
   chanNotFound : Bool   -- channelHandler answers 404 when no node reports the channel
+  nilPct       : Bool := true   -- E2eProcessingLatencyAggregate.UnmarshalJSON drops null percentile entries (F53)
+  clearNodes   : Bool := true   -- GetNSQDStats discards a `nodes` member sent by the upstream (F54)
 deriving DecidableEq, Repr
 
-def Fixes.all : Fixes := ⟨true, true, true, true⟩
-def Fixes.unfixed : Fixes := ⟨false, false, false, false⟩
+def Fixes.all : Fixes := ⟨true, true, true, true, true, true⟩
+def Fixes.unfixed : Fixes := ⟨false, false, false, false, false, false⟩
 
 /-! ### What the upstreams say -/
 
@@ -78,6 +83,10 @@ structure Chan where
   paused : Bool
   clients : List (Option Client)     -- `none` = JSON null
   e2e : Bool                         -- `e2e_processing_latency` present and not null
+  pct : List Latency.Pct := []       -- shape of its `percentiles` array (see `Nsq.Model.Latency`)
+  upNodes : List Bool := []          -- a `nodes` member in the upstream's channel object (nsqd never sends
+                                     -- one; the field exists because nsqadmin's own output type is decoded
+                                     -- into): one entry per element, `false` = JSON null
 deriving DecidableEq, Repr
 
 /-- One topic in an nsqd `/stats` answer. -/
@@ -87,6 +96,7 @@ structure Topic where
   paused : Bool
   channels : List (Option Chan)
   e2e : Bool
+  pct : List Latency.Pct := []
 deriving DecidableEq, Repr
 
 /-- A producer object as nsqlookupd's `/nodes` and `/lookup` send it. `addr` stands for
@@ -410,6 +420,7 @@ structure ChanNode where
   paused : Bool
   clients : List ClientV
   e2e : Bool
+  upNodes : List Bool := []          -- what is in `NodeStats` when the report leaves GetNSQDStats
 deriving DecidableEq, Repr
 
 /-- An aggregated `ChannelStats`. -/
@@ -421,6 +432,7 @@ structure ChanAgg where
   paused : Bool := false
   nodes : List ChanNode := []
   clients : List ClientV := []
+  junk : List Bool := []             -- entries of `NodeStats` that did not come from an `Add` (`false` = nil)
 deriving DecidableEq, Repr
 
 /-- A per-node `TopicStats`. -/
@@ -455,7 +467,8 @@ def chanNodeOf (fx : Fixes) (p : Producer) (topic : String) (c : Chan) : Except 
   match clientsOf fx p.addr c.clients with
   | .error e => .error e
   | .ok cl => .ok { node := p.addr, hostname := p.hostname, topic := topic, name := c.name,
-                    cnt := c.cnt.derive, paused := c.paused, clients := cl, e2e := c.e2e }
+                    cnt := c.cnt.derive, paused := c.paused, clients := cl, e2e := c.e2e,
+                    upNodes := if fx.clearNodes then [] else c.upNodes }
 
 /-- The channel map of GetNSQDStats as an association list in first-seen order. -/
 abbrev ChanMap := List (String × ChanAgg)
@@ -517,6 +530,30 @@ def topicsOfNode (fx : Fixes) (p : Producer) (selTopic : String) :
           .ok ({ node := p.addr, hostname := p.hostname, name := t.name, cnt := t.cnt.derive,
                  paused := t.paused, channels := cns, e2e := t.e2e } :: tns, m'')
 
+/-! Decoding one nsqd's `/stats` answer into `[]*TopicStats` (`json.Unmarshal` inside `GETV1`, inside
+the fetch goroutine) runs `E2eProcessingLatencyAggregate.UnmarshalJSON` on the latency document of
+*every* topic and channel of the answer — before any `selectedTopic` filter — and that method writes
+to every entry of `percentiles`. -/
+
+def pctDecodes (fx : Fixes) (e2e : Bool) (pct : List Latency.Pct) : Bool :=
+  !e2e || fx.nilPct || pct.all (·.isSome)
+
+def chanDecodes (fx : Fixes) : Option Chan → Bool
+  | none => true
+  | some c => pctDecodes fx c.e2e c.pct
+
+def topicDecodes (fx : Fixes) : Option Topic → Bool
+  | none => true
+  | some t => pctDecodes fx t.e2e t.pct && t.channels.all (chanDecodes fx)
+
+def statsDecodes (fx : Fixes) (ans : List (Option Topic)) : Bool := ans.all (topicDecodes fx)
+
+/-- One producer's answer inside the GetNSQDStats goroutine: decode, then the loop over the topics. -/
+def nodeAnswer (fx : Fixes) (p : Producer) (selTopic : String) (ans : List (Option Topic)) (m : ChanMap) :
+    Except Fault (List TopicNode × ChanMap) :=
+  if statsDecodes fx ans then topicsOfNode fx p selTopic ans m
+  else .error (.nilMapWrite "E2eProcessingLatencyAggregate.UnmarshalJSON p[\"min\"]")
+
 def nsqdStatsGo (fx : Fixes) (w : World) (selTopic selChan : String) (incl : Bool) :
     List Producer → List TopicNode → ChanMap → Nat → Except Fault (List TopicNode × ChanMap × Nat)
   | [], ts, m, failed => .ok (ts, m, failed)
@@ -524,7 +561,7 @@ def nsqdStatsGo (fx : Fixes) (w : World) (selTopic selChan : String) (incl : Boo
     match statsOf w p.addr selTopic (if selTopic == "" then "" else selChan) incl with
     | none => nsqdStatsGo fx w selTopic selChan incl rest ts m (failed + 1)
     | some ans =>
-      match topicsOfNode fx p selTopic ans m with
+      match nodeAnswer fx p selTopic ans m with
       | .error e => .error e
       | .ok (tns, m') => nsqdStatsGo fx w selTopic selChan incl rest (ts ++ tns) m' failed
 
@@ -557,14 +594,17 @@ def mergeChan (fx : Fixes) (cs : List ChanAgg) (a : ChanNode) : Except Fault (Li
         | .error e => .error e
         | .ok r =>
           if c.name == a.name then
-            (match c.add fx a with
-             | .error e => .error e
-             | .ok c' => .ok (c' :: r))
+            -- `c.NodeStats = append(c.NodeStats, a); sort.Sort(ChannelStatsByHost{c.NodeStats})`: at least two
+            -- elements, so `Less` looks at every one of them
+            (if c.junk.any (!·) then .error (.nilDeref "ChannelStatsByHost.Less c.NodeStats[i].Hostname")
+             else match c.add fx a with
+               | .error e => .error e
+               | .ok c' => .ok (c' :: r))
           else .ok (c :: r)
      go cs)
   else
     .ok (cs ++ [{ node := a.node, topic := a.topic, name := a.name, cnt := a.cnt, paused := a.paused,
-                  nodes := [], clients := a.clients }])
+                  nodes := [], clients := a.clients, junk := a.upNodes }])
 
 def mergeChans (fx : Fixes) : List ChanNode → List ChanAgg → Except Fault (List ChanAgg)
   | [], cs => .ok cs
